@@ -14,6 +14,9 @@ import os
 import re
 
 FINDING_TP = "tparam-cross-universe"
+F_CONSTRAINT = "constraint-interface-type-sets-ignored"
+F_GENSIG = "generic-signature-type-params-by-address"
+F_LOCAL = "local-named-type-cross-universe"
 
 
 def coq_str_list(xs):
@@ -76,6 +79,8 @@ def run(c):
               "have the same root constructor (the comparison has to descend) or are identical; distinct by "
               "(alias mode, universe pair, the two type expressions)")
     c.trusted += [
+        "go2coq xtypes: reads ifacePair.identical (==, &&, || over the four addresses) and the call sites of identity/implements "
+        "relations in ruleguard, typematch and xtypes",
         "harness/internal/gtypes: canonical serialisation of go/types types into gtype terms (go/types accessors trusted)",
         "go/types: types.Identical / types.Implements as oracle inside one universe; LookupFieldOrMethod as the method-set "
         "oracle assumed by implements_x_is_spec (Section hypotheses lookup_mset, iface_has_no_fields)",
@@ -83,15 +88,18 @@ def run(c):
         "harness/cmd/c14 and hook ruleguard.VerifXtypesIdentical/VerifXtypesImplements (build tag verif)",
     ]
     c.notes += [
-        "outside the term model (exercised against go/types only where they occur): cyclic anonymous interface literals "
-        "(the ifacePair stack), constraint interfaces with type sets / unions, generic (uninstantiated) signatures, "
-        "function-local named types",
+        "outside the term model, compared with go/types directly (extra pool): recursive interfaces through anonymous embedding "
+        "(self, mutual, through a parameter; unrolled and diverging at depth 1..3 -- this is what exercises the ifacePair stack), "
+        "constraint interfaces with type sets, generic (uninstantiated) signatures, function-local named types",
         "pointer equality `x == y` is modelled as term equality within a universe (identical_x_refl_same)",
     ]
     c.build_theories()
     c.require_theories("Types/GType.v", "Types/XIdentical.v", "Types/C14Run.v")
-    c.install_tmpl("C14/C14.v")
-    c.coq_compile(["C14.v"])
+    # ---- P over regenerated code: ifacePair.identical and the call sites of the relations
+    if c.go2coq("xtypes", "Gen_XTypes.v"):
+        if c.coq_compile(["Gen_XTypes.v"]):
+            c.install_tmpl("C14/Inst_XTypes.v", "C14/C14.v")
+            c.coq_compile(["Inst_XTypes.v", "C14.v"])
 
     hb = c.build_harness("c14")
     if hb is None:
@@ -100,7 +108,8 @@ def run(c):
     def observe(seed, nrand, depth):
         res = []
         for mode in ("0", "1"):
-            rc, out = c.run_harness(hb, ["-seed", str(seed), "-rand", str(nrand), "-depth", str(depth)], timeout=600,
+            rc, out = c.run_harness(hb, ["-seed", str(seed), "-rand", str(nrand), "-depth", str(depth),
+                                         "-tmp", os.path.join(c.work, "tmp-a%s-s%d" % (mode, seed))], timeout=600,
                                     env={"GODEBUG": "gotypesalias=" + mode})
             o = None
             for line in out.splitlines():
@@ -191,6 +200,30 @@ def run(c):
                                input=dict(ctx, a=exprs[i], a_universe=ua, b=exprs[j], b_universe=ub), observed=rows[i][j] == "1")
                 if have_model:
                     c.coverage["model_vs_impl_pairs"] = c.coverage.get("model_vs_impl_pairs", 0) + n * n
+            # ---- extra pool: types that have no term in the model (go/types is the only reference there)
+            xn, xc = o.get("xnames") or [], o.get("xclass") or []
+            for key, ua, ub in (("xx11", 1, 1), ("xx12", 1, 2), ("xx21", 2, 1)):
+                for i in range(len(xn)):
+                    for j in range(len(xn)):
+                        c.evaluations += 1
+                        ob, ex = o[key][i][j], o["xg1"][i][j]
+                        if ex == "1" or xc[i] == xc[j]:
+                            c.nontrivial.add((mode, "extra", ua, ub, xn[i], xn[j]))
+                        if ob == ex:
+                            continue
+                        finding = None
+                        if xc[i] == xc[j] == "constraint-interface" and ob == "1" and ex == "0":
+                            finding = F_CONSTRAINT
+                        elif xc[i] == xc[j] == "generic-signature" and ob == "0" and ex == "1":
+                            finding = F_GENSIG
+                        elif (xc[i] == xc[j] == "local-named" and ua != ub and i == j and ob == "0" and ex == "1"
+                              and xn[i].startswith("local ")):
+                            finding = F_LOCAL
+                        c.fail("oracle", "xtypes.Identical contradicts %s (types outside the term model: %s)" % (
+                            "types.Identical" if ua == ub else "the counterpart relation across two type-checks", xc[i]),
+                            input=dict(ctx, a=xn[i], a_universe=ua, b=xn[j], b_universe=ub),
+                            expected=ex == "1", observed=ob == "1", finding=finding)
+            c.coverage["extra_pool_size"] = len(xn)
             # ---- the three laws on the observed relation (type parameters of universe 2 left out: recorded finding)
             nodes = [(1, i) for i in range(n)] + [(2, j) for j in range(n) if j not in tp]
             blk = {(1, 1): o["x11"], (1, 2): o["x12"], (2, 1): o["x21"], (2, 2): o["x22"]}
@@ -238,6 +271,24 @@ def run(c):
                         c.fail("corr", "model implements_x differs from internal/xtypes.Implements",
                                input=dict(ctx, type=exprs[i], type_universe=ua, iface=exprs[ifs[j]], iface_universe=ub),
                                observed=rows[i][j] == "1")
+            # ---- engine level: one engine, two independent type-checks of the same package
+            eo = o.get("engine")
+            if eo is not None:
+                if eo.get("load_err"):
+                    c.obligation("engine-section-load:" + fname, False, eo["load_err"])
+                for p in eo.get("panics") or []:
+                    c.fail("oracle", "Run fails on a re-used engine", input=dict(ctx, run=p), observed=p, expected="reports")
+                for k, (got, exp) in enumerate(zip(eo.get("runs") or [], eo.get("oracle") or [])):
+                    c.evaluations += len(exp)
+                    for m_ in exp:
+                        c.nontrivial.add((mode, "engine", k, m_))
+                    if got != exp:
+                        c.fail("oracle", "one engine over two independent type-checks of the same package: run %d reports differ from what "
+                               "go/types says inside that run's universe (Implements / IdenticalTo / HasMethod / Is filters and the "
+                               "dsl/types natives of custom filters; GetInterface/GetType results are cached from run 1)" % (k + 1),
+                               input=dict(ctx, run=k + 1, rules="harness/cmd/c14 engRules", target="harness/cmd/c14 engTarget"),
+                               expected=exp, observed=got)
+                c.coverage["engine_runs"] = c.coverage.get("engine_runs", 0) + len(eo.get("runs") or [])
             c.coverage["pool_size"] = n
             c.coverage["interfaces_in_pool"] = len(ifs)
             c.coverage["identical_pairs_per_universe"] = sum(r.count("1") for r in o["g1"])
